@@ -248,7 +248,7 @@ def run_case(c):
         else:
             fkw[c['user'].split('=')[0]] = USER_VALUES[c['user']]
     sp = {'sul': {'max_record_length': 8192},
-          'ops': [S.op_lf(), S.op_origin(), S.op_add('channel', 'C0', 'INDEX'),
+          'ops': [S.op_lf(), S.op_origin(), S.op_add('channel', 'C0', 'INDEX', **({'units': 'm'} if n % 2 else {})),
                   S.op_add('channel', 'C1', 'VALUE'),
                   S.op_add('frame', 'F0', 'FRAME', channels=[{'$ref': 'C0'}, {'$ref': 'C1'}], **fkw)]}
     late = {'op': 'set', 'h': 'F0', 'attr': 'index_type', 'part': 'value', 'value': c['itype']}
